@@ -1,0 +1,197 @@
+//! Verification hooks for the BMP framing / session code (feature
+//! `verif-hooks`, off by default). Add-only: everything here constructs the
+//! real types with their real constructors and calls the real functions; no
+//! behaviour is re-implemented.
+use std::net::SocketAddr;
+use std::sync::{Arc, Mutex as StdMutex};
+
+use arc_swap::ArcSwap;
+use tokio::io::AsyncRead;
+use tokio::sync::Mutex;
+
+use crate::comms::{AnyDirectUpdate, DirectUpdate, Gate, GateAgent, Link};
+use crate::ingress::{self, IngressId, IngressInfo};
+use crate::payload::Update;
+
+pub use super::io::verif_hooks::{bmp_read_once, is_fatal};
+
+use super::metrics::BmpTcpInMetrics;
+use super::router_handler::RouterHandler;
+use super::state_machine::{BmpState, BmpStateMachineMetrics};
+use super::status_reporter::BmpTcpInStatusReporter;
+use super::unit::verif_hooks::{RouterInfos, RouterStates};
+use super::unit::BmpTcpIn;
+use super::util::format_source_id;
+
+/// A downstream that records every `Update` leaving the gate, in order.
+#[derive(Debug, Default)]
+pub struct Collector {
+    pub updates: StdMutex<Vec<Update>>,
+}
+
+#[async_trait::async_trait]
+impl DirectUpdate for Collector {
+    async fn direct_update(&self, update: Update) {
+        self.updates.lock().unwrap().push(update);
+    }
+}
+impl AnyDirectUpdate for Collector {}
+
+/// Everything the BMP unit creates for one connected router, built with the
+/// same constructor calls as `BmpTcpInRunner::run` / `router_connected`.
+pub struct Session {
+    handler: Option<RouterHandler>,
+    pub gate: Arc<Gate>,
+    pub agent: GateAgent,
+    pub link: Link,
+    pub collector: Arc<Collector>,
+    pub register: Arc<ingress::Register>,
+    pub metrics: Arc<BmpTcpInMetrics>,
+    pub unit_ingress_id: IngressId,
+    pub router_ingress_id: IngressId,
+    pub router_addr: SocketAddr,
+    pub router_states: RouterStates,
+    pub router_info: RouterInfos,
+    state_machine: Arc<Mutex<Option<BmpState>>>,
+}
+
+impl Session {
+    /// Must be called inside a tokio runtime (gates are cloned). The caller
+    /// has to keep `gate.process()` running (as the unit does) and connect
+    /// `link`.
+    pub fn new(router_addr: SocketAddr) -> Self {
+        let (gate, mut agent) = Gate::new(0);
+        let collector = Arc::new(Collector::default());
+        let mut link = agent.create_link();
+        link.set_direct_update_target(collector.clone());
+
+        let register = Arc::new(ingress::Register::new());
+        let unit_ingress_id = register.register();
+        // as in BmpTcpInRunner::run on accept
+        let query_ingress = IngressInfo::new()
+            .with_parent(unit_ingress_id)
+            .with_remote_addr(router_addr.ip());
+        let router_ingress_id = register.register();
+        register.update_info(router_ingress_id, query_ingress);
+
+        let metrics = Arc::new(BmpTcpInMetrics::default());
+        let bmp_metrics = Arc::new(BmpStateMachineMetrics::default());
+        let status_reporter =
+            Arc::new(BmpTcpInStatusReporter::new("verif", metrics.clone()));
+        let router_id_template = Arc::new(ArcSwap::from_pointee(
+            BmpTcpIn::default_router_id_template(),
+        ));
+
+        // as in BmpTcpInRunner::router_connected
+        let router_id = Arc::new(format_source_id(
+            &router_id_template.load(),
+            "unknown",
+            router_ingress_id,
+        ));
+        let router_info: RouterInfos = Default::default();
+        router_info.insert(
+            router_ingress_id,
+            super::unit::verif_hooks::new_router_info(),
+        );
+        let state = BmpState::new(
+            router_ingress_id,
+            router_id,
+            status_reporter.clone(),
+            bmp_metrics.clone(),
+            register.clone(),
+        );
+        let state_machine = Arc::new(Mutex::new(Some(state)));
+        let router_states: RouterStates = Default::default();
+        router_states.insert(router_ingress_id, state_machine.clone());
+
+        let handler = RouterHandler::new(
+            gate.clone(),
+            None,
+            router_id_template,
+            Default::default(),
+            status_reporter,
+            state_machine.clone(),
+            Default::default(),
+            Default::default(),
+            None,
+            bmp_metrics,
+        );
+
+        Session {
+            handler: Some(handler),
+            gate: Arc::new(gate),
+            agent,
+            link,
+            collector,
+            register,
+            metrics,
+            unit_ingress_id,
+            router_ingress_id,
+            router_addr,
+            router_states,
+            router_info,
+            state_machine,
+        }
+    }
+
+    /// The real `RouterHandler::read_from_router` on an arbitrary reader.
+    pub async fn read_from_router<T: AsyncRead + Unpin>(&self, rx: T) {
+        super::router_handler::verif_hooks::read_from_router(
+            self.handler.as_ref().expect("handler already handed to accept"),
+            rx,
+            self.router_addr,
+            self.router_ingress_id,
+            self.register.clone(),
+        )
+        .await
+    }
+
+    /// The real `BmpTcpInRunner::accept_config`: spawns the router task on a
+    /// real TCP stream; the task removes the router from the maps at its end.
+    pub fn accept(&mut self, tcp_stream: tokio::net::TcpStream) {
+        super::unit::verif_hooks::accept_config(
+            "verif-router".to_string(),
+            self.handler.take().expect("handler already used"),
+            tcp_stream,
+            self.router_addr,
+            self.router_ingress_id,
+            &self.router_states,
+            &self.router_info,
+            self.register.clone(),
+        )
+    }
+
+    pub fn in_router_list(&self) -> (bool, bool) {
+        (
+            self.router_states.get(&self.router_ingress_id).is_some(),
+            self.router_info.get(&self.router_ingress_id).is_some(),
+        )
+    }
+
+    pub fn updates(&self) -> Vec<Update> {
+        self.collector.updates.lock().unwrap().clone()
+    }
+
+    pub fn children(&self) -> Vec<IngressId> {
+        let mut v = self.register.ids_for_parent(self.router_ingress_id);
+        v.sort();
+        v
+    }
+
+    /// Index of the BMP state machine phase (0 Initiating … 3 Terminated, 4
+    /// Aborted), `None` while a message is being processed.
+    pub fn phase(&self) -> Option<usize> {
+        self.state_machine
+            .try_lock()
+            .ok()
+            .and_then(|g| g.as_ref().map(|s| s.state_idx() as usize))
+    }
+
+    /// The unit's metrics in Prometheus text format.
+    pub fn metrics_text(&self) -> String {
+        use crate::metrics::{OutputFormat, Source, Target};
+        let mut target = Target::new(OutputFormat::Prometheus);
+        self.metrics.append("verif", &mut target);
+        target.into_string()
+    }
+}
